@@ -37,6 +37,11 @@ func Run(ctx *core.Ctx) {
 		"harness/c10/cases.go: unparser from the spec's structured parts to Soy source (one line, minimal parentheses)",
 		"TLC, CommunityModules Json")
 
+	// many TLC processes run side by side: keep each JVM's heap small (the JVM
+	// would otherwise grow to a quarter of the machine's memory each)
+	if os.Getenv("_JAVA_OPTIONS") == "" {
+		os.Setenv("_JAVA_OPTIONS", "-Xmx4g")
+	}
 	if ctx.ReplayPath != "" {
 		replay(ctx)
 		return
